@@ -36,7 +36,9 @@ pub fn gen_line(rng: &mut Rng, w: usize, tag: &str, allow_special: bool) -> Stri
             width += 1;
         }
     }
-    let wide_ok = allow_special && w >= 20 && target <= 6;
+    // double-width characters: mostly in short lines on wide terminals (they cannot wrap
+    // there); now and then anywhere (a wrapping line with one is known finding KF-WIDE-WRAP)
+    let wide_ok = allow_special && ((w >= 20 && target <= 6) || (w >= 2 && rng.chance(1, 40)));
     while width < target {
         if allow_special && rng.chance(1, 12) {
             s.push_str(SGR[rng.usize_below(SGR.len())]);
